@@ -219,15 +219,17 @@ theorem c10_negative_key_rejected (c : Cell) (n : Int) (hn : n < 0) (pfx : Bits)
   ⟨parseEdge_neg c hn pfx, fun D bits refs => parseAugEdge_neg D bits refs hn pfx⟩
 
 /-! non-vacuity: over-long labels of all three constructors at key length 2 (3 bits announced; the `#<= 2` field is 2 bits wide) -/
-theorem overShort : LabelBits 2 [true, false, true] .short [false, true, true, true, false, true, false, true] := by
-  have := LabelBits.short (m := 2) (s := [true, false, true]); simpa using this
-theorem overLong : LabelBits 2 [true, false, true] .long [true, false, true, true, true, false, true] := by
-  have := LabelBits.long (m := 2) (s := [true, false, true]) (by simp [lenBits, bitLength]); simpa [lenBits, bitLength, natToBits] using this
-theorem overSame : LabelBits 2 [true, true, true] .same [true, true, true, true, true] := by
-  have := LabelBits.same (m := 2) (s := [true, true, true]) true (by simp) (by simp [lenBits, bitLength]); simpa [lenBits, bitLength, natToBits] using this
 example : parseHashmap (.mk (-1) [false, true, true, true, false, true, false, true] []) 2 = none
     ∧ parseHashmap (.mk (-1) [true, false, true, true, true, false, true] []) 2 = none
     ∧ parseHashmap (.mk (-1) [true, true, true, true, true] []) 2 = none := by
+  have overShort : LabelBits 2 [true, false, true] .short [false, true, true, true, false, true, false, true] := by
+    have := LabelBits.short (m := 2) (s := [true, false, true]); simpa using this
+  have overLong : LabelBits 2 [true, false, true] .long [true, false, true, true, true, false, true] := by
+    have := LabelBits.long (m := 2) (s := [true, false, true]) (by simp [lenBits, bitLength])
+    simpa [lenBits, bitLength, natToBits] using this
+  have overSame : LabelBits 2 [true, true, true] .same [true, true, true, true, true] := by
+    have := LabelBits.same (m := 2) (s := [true, true, true]) true (by simp) (by simp [lenBits, bitLength])
+    simpa [lenBits, bitLength, natToBits] using this
   have a := (c10_label_too_long_rejected overShort (by decide) [] (-1) [] []).2.1
   have b := (c10_label_too_long_rejected overLong (by decide) [] (-1) [] []).2.1
   have c := (c10_label_too_long_rejected overSame (by decide) [] (-1) [] []).2.1
